@@ -28,6 +28,9 @@ pub enum Op {
     Clone,
     /// drop the newest held reference
     Drop,
+    /// drop the newest held reference while the thread unwinds from a panic (which the harness
+    /// catches): the release path must do its work during unwinding too
+    DropUnwinding,
     /// hand the newest held reference to thread j (harness thread index; thread 0 is the root)
     Send(usize),
     /// take a reference out of the own inbox (modelled blocking wait)
@@ -58,6 +61,7 @@ impl ProgB {
                                 Op::AcqReentrant => "A".to_string(),
                                 Op::Clone => "c".to_string(),
                                 Op::Drop => "d".to_string(),
+                                Op::DropUnwinding => "u".to_string(),
                                 Op::Send(j) => format!("s{j}"),
                                 Op::Recv => "r".to_string(),
                             })
@@ -90,6 +94,7 @@ impl ProgB {
                         'A' => Op::AcqReentrant,
                         'c' => Op::Clone,
                         'd' => Op::Drop,
+                        'u' => Op::DropUnwinding,
                         'r' => Op::Recv,
                         's' => {
                             i += 1;
@@ -157,7 +162,7 @@ fn well_formed(threads: &[Vec<Op>], sync: bool) -> bool {
                         }
                         depth[t] += 1;
                     }
-                    Op::Drop => {
+                    Op::Drop | Op::DropUnwinding => {
                         if depth[t] < 1 {
                             return false;
                         }
@@ -235,6 +240,7 @@ pub fn wrapper_programs(sync: bool, n: usize, per_thread: usize, total: usize, r
     let mut alphabet = vec![Op::Acq, Op::Clone, Op::Drop];
     if reentrant {
         alphabet.push(Op::AcqReentrant);
+        alphabet.push(Op::DropUnwinding);
     }
     if handoff {
         alphabet.push(Op::Recv);
@@ -399,6 +405,19 @@ fn interpret<W: Wrapper>(w: &W, t: usize, ops: &[Op]) {
             Op::Drop => {
                 let (r, id) = stack.pop().expect("well-formed program");
                 tracked_drop(t, r, id);
+            }
+            Op::DropUnwinding => {
+                let (r, id) = stack.pop().expect("well-formed program");
+                world().begin_drop(id);
+                DROP_BRANCH.with(|b| b.set(0));
+                struct HarnessUnwind;
+                let res = std::panic::catch_unwind(std::panic::AssertUnwindSafe(move || {
+                    let _held = r; // dropped while this closure unwinds
+                    std::panic::resume_unwind(Box::new(HarnessUnwind));
+                }));
+                assert!(res.is_err(), "the harness unwind was caught");
+                let branch = DROP_BRANCH.with(Cell::get);
+                world().end_drop(t, id, branch);
             }
             Op::Send(j) => {
                 let (r, id) = stack.pop().expect("well-formed program");
